@@ -94,7 +94,9 @@ theorem vp_pos (t : ℝ) : 0 < vaporPressure t := by
 
 /-- the bisection does move: with `f = id` and level 3 in the bracket [0, 8] two steps give 2 -/
 example : bisect (fun x : ℝ => x) 3 2 0 8 = 2 := by
-  norm_num [bisect, acc, RealNum.abs_eq, RealNum.ofNat_eq]
+  simp only [bisect, acc, RealNum.abs_eq]
+  simp only [RealNum.ofNat_eq, Nat.cast_zero]
+  norm_num
 
 example : 0 < vaporPressure (20 : ℝ) := vp_pos 20
 
